@@ -40,6 +40,21 @@ def skeleton(kind):
         d.add_child(k)
         k.add_child(Node("organizationName", content="o"))
         return d
+    if kind in ("eml", "relatedProject"):
+        # parents whose rule lists a child name that is not a known element (if the table has such names)
+        if kind == "eml":
+            e = Node("eml")
+            e.add_attribute("packageId", "p.1.1")
+            e.add_attribute("system", "s")
+            e.add_child(skeleton("dataset"))
+            return e
+        rp = Node("relatedProject")
+        rp.add_child(Node("title", content="t"))
+        pe = Node("personnel")
+        rp.add_child(pe)
+        pe.add_child(Node("organizationName", content="o"))
+        pe.add_child(Node("role", content="r"))
+        return rp
     am = Node("additionalMetadata")
     md = Node("metadata")
     am.add_child(md)
@@ -54,6 +69,9 @@ def plant(n, kind, rnd, t):
         j = Node("zzUnknown")
         j.add_child(Node("title", content="inner"))
         n.add_child(j, index=rnd.randint(0, len(n.children)))
+    elif kind == "unknown-leaf":
+        listed = [x for x in (t.dfas[t.node_map[n.name]].sigma if n.name in t.node_map else []) if not x.startswith("~") and x not in t.node_map]
+        n.add_child(Node(listed[0] if listed else "zzUnknownLeaf"), index=rnd.randint(0, len(n.children)))
     elif kind == "misplaced-known-child":
         names = set(t.dfas[t.node_map[n.name]].sigma) if n.name in t.node_map else set()
         cand = [x for x in ("title", "para", "dataset", "surName", "access") if x not in names]
@@ -166,7 +184,7 @@ def run(rep, tier, seed):
     from harness import gen_tables
     gen_tables.write_rule_table(wd)
     cfgp = os.path.join(wd, "plans.cfg")
-    open(cfgp, "w").write('SPECIFICATION Spec\nCONSTANTS\n  Which = "prune"\n  Skeletons = {"access", "dataset", "metadata"}\n'
+    open(cfgp, "w").write('SPECIFICATION Spec\nCONSTANTS\n  Which = "prune"\n  Skeletons = {"access", "dataset", "metadata", "eml", "relatedProject"}\n'
                           f'  MaxSites = 6\n  MaxPlant = {1 if tier == "quick" else 2}\n  MaxItems = 1\nINVARIANT Log\n')
     r = run_tlc("MC_Plans", cfg=cfgp, timeout=600)
     if not r.ok:
@@ -176,11 +194,11 @@ def run(rep, tier, seed):
     if tier == "quick":
         # all single plantings, plus a seeded sample of pairs
         rnd = random.Random(seed)
-        kinds = ["unknown-child", "misplaced-known-child", "invalid-content", "invalid-attribute", "starve-required-child"]
+        kinds = ["unknown-child", "unknown-leaf", "misplaced-known-child", "invalid-content", "invalid-attribute", "starve-required-child"]
         for _ in range(500):
             a = [rnd.randint(1, 6), rnd.choice(kinds)]
             b = [rnd.randint(1, 6), rnd.choice(kinds)]
-            plans.append({"skeleton": rnd.choice(["access", "dataset", "metadata"]), "strict": rnd.random() < 0.5, "plant": [a, b]})
+            plans.append({"skeleton": rnd.choice(["access", "dataset", "metadata", "eml", "relatedProject"]), "strict": rnd.random() < 0.5, "plant": [a, b]})
     G["plans"] = plans
     evs = [e for chunk in parallel(w_plans, range(len(plans))) for e in chunk]
     nseed = 120 if tier == "quick" else 2500
